@@ -27,6 +27,7 @@ type layoutEvents struct {
 	Elem   map[Sym]lfElemRef // symbols standing for bytes loaded from a tracked buffer
 	SymName func(Sym) string
 	ParamSym map[int]Sym // integer parameters of the entry function → their symbols
+	DLen     *Lin        // length of the input byte slice
 }
 
 // feasibleWith: can the receiver fields take the given values on this path?
@@ -94,6 +95,7 @@ func extractEventsWith(c *Ctx, fn *ssa.Function, widths map[string]int, setup fu
 		le := layoutEvents{Cond: append([]string{}, st.trail...), Events: append([]lfEvent{}, st.events...), Bools: map[string]bool{}, OK: ok, Cons: append([]Cons{}, st.cons...), Fields: map[string]Lin{}}
 		le.Elem = e.elemLoads
 		le.ParamSym = e.paramSyms
+		le.DLen = e.dLen
 		le.SymName = func(sy Sym) string {
 			if int(sy) >= 0 && int(sy) < len(e.symNames) {
 				return e.symNames[sy]
@@ -181,7 +183,7 @@ func cmdLayout(args []string) int {
 			}
 		}
 		for _, ev := range le.Events {
-			if ev.Kind == "cmp" || ev.Kind == "hash" || ev.Kind == "stale" || strings.HasPrefix(ev.Kind, "loop:") {
+			if ev.Kind == "cmp" || ev.Kind == "hash" || ev.Kind == "stale" || ev.Kind == "sum" || strings.HasPrefix(ev.Kind, "loop:") {
 				extra := ""
 				if ev.Loop != nil {
 					extra = fmt.Sprintf("  guard=%v", ev.Loop.Guard)
